@@ -54,7 +54,7 @@ BASE["raise"] = True
 
 def plan(tier):
     q = tier == "quick"
-    return [{"name": "main", "examples": 1200 if q else 40000}, {"name": "preempt", "examples": 700 if q else 30000},
+    return [{"name": "main", "examples": 1200 if q else 30000}, {"name": "preempt", "examples": 700 if q else 12000},
             {"name": "sustained", "examples": 120 if q else 2000, "shards": 4},
             {"name": "startphase", "examples": 250 if q else 8000}]
 
